@@ -695,6 +695,7 @@ theorem eval_for {fuel env ids e body what pos s} :
       match evalFor ld fuel env ids e body what pos s with
       | .ok v s' => .ok v (restoreVars env (hiddenVars s env ids) s')
       | .err v m p t s' => .err v m p t (restoreVars env (hiddenVars s env ids) (ids.foldl (fun s x => s.remove env x) s'))
+      | .fail (.syn e) s' => .fail (.syn e) (restoreVars env (hiddenVars s env ids) (ids.foldl (fun s x => s.remove env x) s'))
       | other => other := by rw [eval]; rfl
 
 theorem evalFor_str {fuel env ids e body what pos s cs s1}
@@ -709,6 +710,7 @@ example : eval ld0 4 0 (.for ["x"] (.lit (.str ['a']) {}) (.cont {}) "" {}) s0 =
   show (match forString ld0 2 0 "x" ['a'] (Node.cont { }) (RVal.bool true) s0 with
     | Out.ok v s' => Out.ok v (restoreVars 0 (hiddenVars s0 0 ["x"]) s')
     | Out.err v m p t s' => Out.err v m p t (restoreVars 0 (hiddenVars s0 0 ["x"]) (List.foldl (fun s x => s.remove 0 x) s' ["x"]))
+    | Out.fail (Fail.syn e) s' => Out.fail (Fail.syn e) (restoreVars 0 (hiddenVars s0 0 ["x"]) (List.foldl (fun s x => s.remove 0 x) s' ["x"]))
     | other => other) = _
   rw [forString_step ld0 (eval_cont ld0 0 _ {} _)]
   simp only [RVal.isBreak, RVal.isReturn, RVal.isContinue, Bool.false_eq_true, if_false, if_true]
@@ -726,7 +728,7 @@ theorem for_never_break_continue {fuel env ids e body what pos s v s'}
     cases hf : evalFor ld fuel env ids e body what pos s with
     | ok v1 s1 => rw [hf] at h; cases h; exact evalFor_absorbs ld hf
     | err => rw [hf] at h; cases h
-    | fail => rw [hf] at h; cases h
+    | fail f s1 => rw [hf] at h; cases f <;> cases h
 
 theorem for_example :
     eval ld0 4 0 (.for ["x"] (.lit (.str ['a']) {}) (.cont {}) "" {}) s0 =
@@ -735,6 +737,7 @@ theorem for_example :
   show (match forString ld0 2 0 "x" ['a'] (Node.cont { }) (RVal.bool true) s0 with
     | Out.ok v s' => Out.ok v (restoreVars 0 (hiddenVars s0 0 ["x"]) s')
     | Out.err v m p t s' => Out.err v m p t (restoreVars 0 (hiddenVars s0 0 ["x"]) (List.foldl (fun s x => s.remove 0 x) s' ["x"]))
+    | Out.fail (Fail.syn e) s' => Out.fail (Fail.syn e) (restoreVars 0 (hiddenVars s0 0 ["x"]) (List.foldl (fun s x => s.remove 0 x) s' ["x"]))
     | other => other) = _
   rw [forString_example]
 
